@@ -3,7 +3,7 @@
    Ctrl+letter, under the names the protocol documents give them (a slip in the table is caught
    here, on the regenerated automaton). *)
 From Coq Require Import List NArith Bool Lia Arith ZifyBool ZifyNat ZifyN.
-From SNT Require Import Base.Sweep Base.Dec10.
+From SNT Require Import Base.Sweep Base.Dec10 Automata.DfaData.
 From SNT Require Import Decoder.EvModel Decoder.Printer Decoder.EvProd Decoder.EvProofs.
 From SNT Require Import Gen.ProdDFA Gen.C04Keys.
 Import ListNotations.
@@ -14,19 +14,41 @@ Definition xterm_keys : list kname :=
   ++ map (fun i => KF (1 + i)) (nrange 12)
   ++ map (fun i => KChar (32 + i)) (nrange 95).
 
+(* the printed form leads to an accepting terminal state whose item is the key (a literal entry of the
+   library's table or the parsed ModifiedKeyMatcher, whichever the automaton reaches) *)
+Definition key_single_check (w : list N) (k : kname) (mods : N) : bool :=
+  negb (match w with [] => true | _ => false end)
+  && match prod_run w with
+     | Some q =>
+         d_accepting event_dfa q && d_terminal event_dfa q
+         && match prod_item q w with
+            | Some (EKey k' m') => kname_eqb k' k && (m' =? mods)
+            | _ => false
+            end
+     | None => false
+     end.
+
+Lemma key_single_check_sound w k mods : key_single_check w k mods = true -> single_bytes w (EKey k mods).
+Proof.
+  unfold key_single_check. intros H. apply andb_true_iff in H. destruct H as [Hne H].
+  split; [destruct w; [discriminate| discriminate]|].
+  destruct (prod_run w) as [q|]; [|discriminate]. exists q.
+  rewrite !andb_true_iff in H. destruct H as [[Ha Ht] Hi].
+  split; [reflexivity|]. split; [exact Ha|]. split; [exact Ht|].
+  destruct (prod_item q w) as [[k' m'| | | | | | | | | | | | | ]|]; try discriminate.
+  apply andb_true_iff in Hi. destruct Hi as [Hk Hm]. apply kname_eqb_eq in Hk. apply N.eqb_eq in Hm. subst.
+  reflexivity.
+Qed.
+
 Definition xterm_entry_ok (k : kname) (mods : N) (a : bool) : bool :=
   match xterm_seq k mods a with
   | None => true
-  | Some w =>
-      negb (bare_prefix w)
-      && match lit_lookup prod_key_table w with
-         | Some (k', m') => kname_eqb k' k && (m' =? mods)
-         | None => false
-         end
+  | Some w => key_single_check w k mods
   end.
 
+(* every key, both forms, every one of the 256 modifier masks: run on the regenerated automaton *)
 Lemma xterm_table_ok :
-  forallb (fun k => forallb (fun a => sweep1 8 (fun mods => xterm_entry_ok k mods a)) [true; false]) xterm_keys = true.
+  forallb (fun k => forallb (fun a => sweep1 256 (fun mods => xterm_entry_ok k mods a)) [true; false]) xterm_keys = true.
 Proof. vm_compute. reflexivity. Qed.
 
 Lemma xterm_key_in k mods a w : xterm_seq k mods a = Some w -> In k xterm_keys /\ mods < 256.
@@ -52,32 +74,79 @@ Proof.
     apply in_map_iff. exists (c - 32). split; [f_equal; lia| apply nrange_In; lia].
 Qed.
 
-(* masks 0..7 only: the library's table stops there (known finding C04-key-mask, see
-   xterm_mask8_refuted) *)
+(* every modifier mask 0..255 (crate fix 8f4107f: the modified forms are parsed, not enumerated);
+   modified F3 in the PC-style form exists for masks 1..7 only, see Printer.xterm_seq *)
 Theorem single_xterm k mods a :
-  mods < 8 ->
   wf decmode_all prod_key_table (RXterm k mods a) = true -> single (RXterm k mods a).
 Proof.
-  cbn [wf]. intros Hm Hwf. destruct (xterm_seq k mods a) as [w|] eqn:E; [|discriminate].
-  destruct (xterm_key_in k mods a w E) as [Hin _].
+  cbn [wf]. intros Hwf. destruct (xterm_seq k mods a) as [w|] eqn:E; [|discriminate].
+  destruct (xterm_key_in k mods a w E) as [Hin Hm].
   pose proof xterm_table_ok as H. rewrite forallb_forall in H. specialize (H k Hin). cbv beta in H.
   rewrite forallb_forall in H. assert (Ha : In a [true; false]) by (destruct a; cbn; tauto).
-  specialize (H a Ha). cbv beta in H. pose proof (sweep1_sound 8 _ H mods Hm) as Hs. cbv beta in Hs.
-  unfold xterm_entry_ok in Hs. rewrite E in Hs. apply andb_true_iff in Hs. destruct Hs as [Hbp Hl].
-  destruct (lit_lookup prod_key_table w) as [[k' m']|] eqn:El; [|discriminate].
-  apply andb_true_iff in Hl. destruct Hl as [Hk Hm']. apply kname_eqb_eq in Hk. apply N.eqb_eq in Hm'. subst k' m'.
-  assert (Hs : single (RLit w)) by (apply single_literal; [rewrite El; discriminate| apply negb_true_iff, Hbp]).
-  unfold single, prod_denote, denote in *. cbn [print] in *. rewrite E. rewrite El in Hs. exact Hs.
+  specialize (H a Ha). cbv beta in H. pose proof (sweep1_sound 256 _ H mods Hm) as Hs. cbv beta in Hs.
+  unfold xterm_entry_ok in Hs. rewrite E in Hs. apply key_single_check_sound in Hs.
+  unfold single, prod_denote, denote. cbn [print]. rewrite E. exact Hs.
 Qed.
 
-(* known finding C04-key-mask: a cursor key with modifier mask 8 (xterm: meta, parameter 9; kitty:
-   super) is not in the table; the sequence is torn into five key events *)
-Lemma xterm_mask8_refuted :
-  wf decmode_all prod_key_table (RXterm KUp 8 false) = true
-  /\ print (RXterm KUp 8 false) = [27; 91; 49; 59; 57; 65]
-  /\ fst (prod_decode (print (RXterm KUp 8 false)))
-     = [EKey (KChar 91) 2; EKey (KChar 49) 0; EKey (KChar 59) 0; EKey (KChar 57) 0; EKey (KChar 65) 0].
+(* regression of the former finding C04-key-mask: a cursor key with modifier mask 8 (xterm: meta,
+   parameter 9; kitty: super) and one with NumLock (kitty mask 128) are one key event each *)
+Lemma xterm_mask8_decodes :
+  print (RXterm KUp 8 false) = [27; 91; 49; 59; 57; 65]
+  /\ fst (prod_decode (print (RXterm KUp 8 false))) = [EKey KUp 8]
+  /\ fst (prod_decode (print (RXterm KDelete 133 false))) = [EKey KDelete 133].
 Proof. split; [reflexivity|]. split; vm_compute; reflexivity. Qed.
+
+(* the modifier convention of the parsed matcher, on the regenerated automaton: CSI code ; m ~ and
+   CSI 1 ; m X (X other than R) name the key of the unmodified table entry CSI code ~ / CSI X with
+   modifier mask m - 1, for every code below 32 and every parameter 1..256; nothing else is a key *)
+Definition base_key (w : list N) : option kname :=
+  match lit_lookup prod_key_table w with
+  | Some (k, 0) => Some k
+  | _ => None
+  end.
+Definition modkey_finals : list N := [65; 66; 67; 68; 70; 72; 80; 81; 83].
+Definition modkey_expect (code p f : N) : option tev :=
+  match (if f =? 126 then base_key ([27; 91] ++ digits code ++ [126])
+         else if code =? 1 then base_key [27; 91; f] else None) with
+  | Some k => Some (EKey k (p - 1))
+  | None => None
+  end.
+Definition opt_key_eqb (a b : option tev) : bool :=
+  match a, b with
+  | Some (EKey k m), Some (EKey k' m') => kname_eqb k k' && (m =? m')
+  | None, None => true
+  | _, _ => false
+  end.
+Definition modkey_ok (f code p : N) : bool :=
+  let w := [27; 91] ++ digits code ++ [59] ++ digits (p + 1) ++ [f] in
+  opt_key_eqb (ev_payload decmode_codes decstatus_codes 14 w) (modkey_expect code (p + 1) f).
+Lemma modkey_convention_ok :
+  forallb (fun f => sweep2 32 256 (modkey_ok f)) (126 :: modkey_finals) = true.
+Proof. vm_compute. reflexivity. Qed.
+
+Lemma opt_key_eqb_eq a b : opt_key_eqb a b = true -> a = b.
+Proof.
+  destruct a as [[k m| | | | | | | | | | | | | ]|], b as [[k' m'| | | | | | | | | | | | | ]|]; cbn; try discriminate; try reflexivity.
+  intros H. apply andb_true_iff in H. destruct H as [Hk Hm]. apply kname_eqb_eq in Hk. apply N.eqb_eq in Hm. subst. reflexivity.
+Qed.
+
+Theorem modkey_convention f code p :
+  In f (126 :: modkey_finals) -> code < 32 -> 1 <= p <= 256 ->
+  ev_payload decmode_codes decstatus_codes 14 ([27; 91] ++ digits code ++ [59] ++ digits p ++ [f])
+  = modkey_expect code p f.
+Proof.
+  intros Hf Hc Hp. apply opt_key_eqb_eq. pose proof modkey_convention_ok as H. rewrite forallb_forall in H. specialize (H f Hf).
+  pose proof (sweep2_sound 32 256 _ H code (p - 1) Hc ltac:(lia)) as Hs. unfold modkey_ok in Hs.
+  replace (p - 1 + 1) with p in Hs by lia. exact Hs.
+Qed.
+
+Theorem key_modifiers :
+  forallb mod_entry_ok prod_key_table = true
+  /\ forall f code p : N,
+       In f (126 :: modkey_finals) -> code < 32 -> 1 <= p <= 256 ->
+       ev_payload decmode_codes decstatus_codes 14 ([27; 91] ++ digits code ++ [59] ++ digits p ++ [f])
+       = modkey_expect code p f.
+Proof. split; [exact mod_table_ok| exact modkey_convention]. Qed.
 
 (* coverage of the table by the reference encoding: every entry is pinned by C04_xterm_keys
    except an explicit remainder whose names are the library's own (trusted names) *)
@@ -90,12 +159,13 @@ Definition trusted_names : list (list N) :=
   [[27]; [27; 79]; [27; 80]; [27; 91]; [27; 93]; [27; 95]]
   (* CSI P .. S as unmodified F1 .. F4 (xterm sends SS3 P .. S) *)
   ++ [[27; 91; 80]; [27; 91; 81]; [27; 91; 82]; [27; 91; 83]]
-  (* rxvt's CSI 7 ~ / CSI 8 ~ (named Insert / End by the library; rxvt: Home / End) with masks 0..7 *)
-  ++ flat_map (fun c => [27; 91; c; 126] :: map (fun m => [27; 91; c; 59; 49 + m; 126]) (map (fun i => 1 + i) (nrange 7))) [55; 56].
+  (* rxvt's CSI 7 ~ / CSI 8 ~ (named Insert / End by the library; rxvt: Home / End); their modified
+     forms go through the parsed matcher (modkey_convention) *)
+  ++ [[27; 91; 55; 126]; [27; 91; 56; 126]].
 
 Definition mem_bytes (w : list N) (l : list (list N)) : bool := existsb (bytes_eqb w) l.
 
 Lemma table_coverage :
   forallb (fun e => mem_bytes (fst e) xterm_image || mem_bytes (fst e) trusted_names) prod_key_table = true
-  /\ length trusted_names = 26%nat.
+  /\ length trusted_names = 12%nat.
 Proof. split; vm_compute; reflexivity. Qed.
